@@ -434,7 +434,8 @@ META = {
             "for integer matrices in any basis (no float equality on np.linalg.det), the quantifier must be 'False iff "
             "some rotation is improper' over all rotations, and the rotations must come from the analyzer's dataset. "
             "Together with spglib listing exactly the operations of the detected group this gives the iff with the 65 "
-            "Sohncke groups; spglib's own basis independence is not decided.",
+            "Sohncke groups; spglib's own basis independence is not decided."
+            " The rule set is source-sensitive: get_is_chiral must scan the operations of the detected space-group type (spglib database through the dataset's Hall number), not the operations of the input cell (a subgroup for lattice-breaking supercells); on the 7388 database matrices the floating-point determinant is exactly +-1.0 (enumerated each run) so equality tests are sound there, while on cell-basis rotations float equality/truncation is fragile. A predicate on the space-group number / point-group label instead of a scan is constant-folded over all 230 groups against the reference Sohncke set. Memo coherence with reset().",
     "note": "trusted: spglib returns integer rotation matrices with determinant +-1; np.linalg.det is accurate to well "
             "within 0.5 for such matrices; CPython ast.",
     "technique": "fragile-comparison (contradiction) rule + quantifier-shape recognition + def-use provenance",
